@@ -86,8 +86,9 @@ def second_view(path, backend="sqlite"):
         c.close()
 
 
-def apply_op(st, op, refs, own_ids):
-    """execute one op on the storage; returns (out, resolved_op)"""
+def apply_op(st, op, refs, own_ids, ds=None):
+    """execute one op on the storage (bulk inserts through the Bucket wrapper of `ds` when it is given, as an
+    application would); returns (out, resolved_op)"""
     k = op[0]
     rop = list(op)
 
@@ -139,7 +140,12 @@ def apply_op(st, op, refs, own_ids):
             n_new = sum(1 for e in evs if e[0] is None)
             before = own_ids()
             try:
-                st.insert_many(op[1], [mk_event(e) for e in evs])
+                if ds is not None:
+                    from aw_datastore.datastore import Bucket
+
+                    Bucket(ds, op[1]).insert([mk_event(e) for e in evs])
+                else:
+                    st.insert_many(op[1], [mk_event(e) for e in evs])
             finally:
                 new = sorted(own_ids() - before)
                 new = new[:n_new] + [None] * (n_new - len(new))
@@ -160,6 +166,9 @@ def apply_op(st, op, refs, own_ids):
             return ["ok", bool(st.delete(op[1], i))], rop
         if k == "read":
             st.get_events(op[1], -1)
+            return ["ok"], rop
+        if k == "read1":
+            st.get_events(op[1], 1)  # the limit-1 read of the heartbeat loop
             return ["ok"], rop
         raise RuntimeError("unknown op " + k)
     except RuntimeError:
@@ -201,7 +210,8 @@ def _run_history(case):
         # the store is obtained the way an application obtains it: through Datastore, which passes the options on
         from aw_datastore import Datastore
 
-        st = Datastore(SqliteStorage, testing=True, filepath=path, enable_lazy_commit=case.get("lazy", True)).storage_strategy
+        ds_obj = Datastore(SqliteStorage, testing=True, filepath=path, enable_lazy_commit=case.get("lazy", True))
+        st = ds_obj.storage_strategy
         refs = []
 
         def own_ids():
@@ -218,7 +228,7 @@ def _run_history(case):
             clock.us += entry[0]
             if neighbour is not None and n_op in case["neighbour"]:
                 neighbour.insert_one("n", mk_event([None, CLOCK0, 0, "{}"]))
-            out, rop = apply_op(st, entry[1:], refs, own_ids)
+            out, rop = apply_op(st, entry[1:], refs, own_ids, ds_obj)
             resolved.append(rop)
             nows.append(clock.us)
             steps.append({"out": out, "own": raw_dump(st.conn), "second": second_view(path)})
@@ -260,7 +270,7 @@ def op_line(now, op):
         return pre + f"{hx(op[1])} N {p_ev([None] + list(op[2][1:]))}"
     if k == "delete":
         return pre + f"{hx(op[1])} {op[2]}"
-    if k == "read":
+    if k in ("read", "read1"):
         return f"commit read {now}"
     raise RuntimeError(k)
 
